@@ -388,6 +388,9 @@ def isinstance_(ex, v, c):
         cname = "str" if c == "" else None
     else:
         raise PyvcUnsupported(f"isinstance against {c!r}")
+    if isinstance(v, Sym) and isinstance(v.ty, ResultTy) and cname in ("Exception", "BaseException"):
+        # a value that is `either an Exception or a result` (parser functions): the failure alternative
+        return mkbool(v.ty.is_failure(v.e))
     if isinstance(v, SuccessV):
         return cname == "Success"
     if isinstance(v, FailureV):
